@@ -36,6 +36,14 @@ var c06Programs = []prog{
 	{"two-writers-vs-rc-own-write", "I:Sa|Sa|Sa|b01.s0a.g0a.g0a.r0"},
 }
 
+// explored with a scheduling point after every Unlock as well (release points, `up=1`): what a
+// client does right after leaving a critical section interleaves with the next client entering it
+var c06ReleasePrograms = []prog{
+	{"tx-end-vs-tx-first-write", "I:Sa|b01.s0a.c0|b11.s1b.g1b.c1;up=1"},
+	{"tx-rollback-vs-tx-first-write", "I:Sa|b01.s0a.r0|b11.s1a.g1a.c1;up=1"},
+	{"set-vs-set-vs-get", "I:Sa|Sa|Sb|Ga;up=1"},
+}
+
 var c07Programs = []prog{
 	{"two-rr-commit-a", "I:Sa.b02.b12.s0a.s1a|c0|c1"},
 	{"two-ser-commit-ab-bc", "I:b03.b13.s0a.s0b.s1b.s1c|c0|c1"},
@@ -100,6 +108,11 @@ func concCheck(id, tier string, quick, thorough time.Duration, progs []prog, qb,
 		// pending writer blocks new readers), one deviation less — recursive read locking deadlocks only then
 		for _, p := range progs {
 			items = append(items, conc.Item{Name: "db", Params: p.src + ";wa=1", MaxBound: b - 1, MaxExecs: cap, Label: id + "/" + p.name + "+writer-preference"})
+		}
+	}
+	if id == "C06" {
+		for _, p := range c06ReleasePrograms {
+			items = append(items, conc.Item{Name: "db", Params: p.src, MaxBound: b, MaxExecs: cap, Label: id + "/" + p.name + "+release-points"})
 		}
 	}
 	sum := conc.RunItems(rp, pool, items, budget, verbose())
@@ -173,7 +186,7 @@ var genC08 = &genPlan{al: &dbconc.AlphaC08,
 
 func c06(tier string) int {
 	return concCheck("C06", tier, 420*time.Second, 60*time.Minute, c06Programs, 2, 3, true, genC06,
-		"every schedule with at most N deviations (preemptions, early timers, non-default select arms) of 11 client programs (2-4 clients: autocommit, RU/RC transactions, a GC actor, shared keys) over inline.Open..Close on the real stack, and of the same programs with the writer preference of sync.RWMutex modelled at N-1; oracle: call/return history linearizable w.r.t. the sequential model (C01-C03), no deadlock, no panic, no leaked thread")
+		"every schedule with at most N deviations (preemptions, early timers, non-default select arms) of 11 client programs (2-4 clients: autocommit, RU/RC transactions, a GC actor, shared keys) over inline.Open..Close on the real stack, of the same programs with the writer preference of sync.RWMutex modelled at N-1, and of three programs with a scheduling point after every Unlock as well (release points); oracle: call/return history linearizable w.r.t. the sequential model (C01-C03), no deadlock, no panic, no leaked thread")
 }
 
 func c07(tier string) int {
